@@ -569,7 +569,7 @@ fn check(
     let n = cells.len();
     let mut structural = None;
     let mut semantic = None;
-    let mut fail = |slot: &mut Option<(&'static str, String)>, sig: &'static str, what: String| {
+    let fail = |slot: &mut Option<(&'static str, String)>, sig: &'static str, what: String| {
         if slot.is_none() {
             *slot = Some((sig, what));
         }
